@@ -4,6 +4,7 @@ Shared by the `schema` group (C15, C11, C12) and reusable by the `xsd` group (C1
 The scenario JSON format is documented in notes/C15.md (top) and in specs/Constraints.tla (header).
 
     scn = {"kind": "str"|"bytes"|"list"|"cprim"|"listcprim"|"enum", "opt": bool, "wmt": bool,
+           "shape": "chain" | "dia_ab" | "dia_ba"  (diamond C1<-C2, C1<-C3, C4(C2,C3) / C4(C3,C2); cls has 4 levels),
            "cls":  [[atom, ...] per class C1..Ck (k = depth 1..3)],
            "prim": [[atom, ...] per constrained primitive P1..Pj (j = 0..2)]}
     atom = {"k": "len"|"pat"|"set", "op": "<"|"<="|"=="|">"|">="|"!="|"", "c": int, "side": "L"|"R",
@@ -114,6 +115,18 @@ def x_type(scn: Dict[str, Any]) -> str:
     return "Optional[%s]" % t if scn["opt"] else t
 
 
+def class_bases(scn: Dict[str, Any], k: int) -> List[str]:
+    """Direct parents of Ck: a chain C1 <- C2 <- C3, or the diamond C1 <- C2, C1 <- C3, C4(C2, C3) / C4(C3, C2)."""
+    shape = scn.get("shape", "chain")
+    if shape == "chain":
+        return [] if k == 1 else ["C%d" % (k - 1)]
+    if shape in ("dia_ab", "dia_ba"):
+        if len(scn["cls"]) != 4:
+            raise ValueError("a diamond has four classes")
+        return {1: [], 2: ["C1"], 3: ["C1"], 4: ["C2", "C3"] if shape == "dia_ab" else ["C3", "C2"]}[k]
+    raise ValueError(shape)
+
+
 def scenario_mm(scn: Dict[str, Any]) -> Dict[str, Any]:
     """The abstract meta-model (harness.mm JSON shape) of a scenario."""
     items: List[Dict[str, Any]] = []
@@ -142,7 +155,7 @@ def scenario_mm(scn: Dict[str, Any]) -> Dict[str, Any]:
         it: Dict[str, Any] = {
             "kind": "class",
             "name": "C%d" % k,
-            "bases": [] if k == 1 else ["C%d" % (k - 1)],
+            "bases": class_bases(scn, k),
             "props": props if k == 1 else [],
             "invs": [{"expr": atom_expr(a, "self.x"), "desc": "C%d inv %d" % (k, n)} for n, a in enumerate(lvl)],
             "wmt": True if (k == 1 and (depth > 1 or scn.get("wmt"))) else None,
